@@ -149,7 +149,7 @@ def main():
             jobs.append((o, "shard", ["--shard", str(i), "--exclude", ex], wall))
         jobs.append((o, "twin", ["--shard", "0", "--twin", "--exclude", ex], wall))
         if o.grid is not None:
-            jobs.append((o, "grid", ["--grid"], 900))
+            jobs.append((o, "grid", ["--grid", "--exclude", ex], 900))
     jobs.append((None, "selftest", [], 600))
 
     results = []
